@@ -671,7 +671,26 @@ def _apply(m, op):
         del m.knobs[name]
         m.order.remove(("k", name))
         return None
+    if kind == "load":
+        _, pairs, overwrite = op[:3]
+        if not pairs:
+            raise ModelReject("empty load")
+        for path, ast in pairs:
+            _free_leaf(m, path)
+            _check_ast(m, ast)
+            if path in m.defs:
+                if not overwrite:
+                    continue
+                m.order.remove(("e", path))
+            m.defs[path] = ast
+            m.order.append(("e", path))
+        return ALL
+    if kind in ("refresh", "cleanup", "verify"):
+        return None
     raise ModelReject("unknown op %r" % (kind,))
+
+
+ALL = "ALL"   # start marker: every task is (re)run, in dependency order
 
 
 class StepInfo:
@@ -694,7 +713,9 @@ def model_step(model, op, g_restricted=False, want_graph=True):
     info.g_cyclic = m.has_cycle(edges)
     if g_restricted and info.g_cyclic:
         raise ModelReject("public task graph would get a cycle")
-    if start is not None:
+    if start == ALL:
+        trig = set(t for t in decl if decl[t][0])
+    elif start is not None:
         trig, _, _ = m.trigger(start, decl, edges)
     else:
         trig = set()
